@@ -8,6 +8,9 @@ String token: `-` (empty) or clusters joined by `,`; a cluster is `<width>` foll
 * `str <s> <width> <delim>` — `str::truncate` → `ok:<hex of the result>` | `panic` | `inside`
 * `line <items> <width> <delim>` — `Line::truncate`; `<items>` is `~` (no label) or string tokens joined
   by `/` → `ok:<hex>/<hex>…` (`~` when no label is left) | `panic` | `inside` | `fuel`
+* `seq <op>;<op>;…` — a history on ONE `Line` value (see `SeqOp`) → `w=<n>` per width query, `<labels>@<width>`
+  after each truncation and at the end, joined by `;`
+* `str2|lab2 <s> <w1> <d1> <w2> <d2>` — `truncate`, then `truncate` of the result → `ok:<hex>;ok:<hex>`
 -/
 namespace HeartwoodModel.Driver.C26
 open HeartwoodModel.Term HeartwoodModel.Driver.Util
@@ -35,6 +38,53 @@ def line? (t : String) : Option Line :=
 def showLine (l : Line) : String :=
   if l.isEmpty then "~" else joinWith "/" (l.map fun i => toHex (bytesOf i))
 
+/-- Operations of a `seq` case, joined by `;`: `n<s>` `Line::new`, `i<s>` `.item`, `u<s>` `push`,
+`e<s>/<s>…` `.extend`, `s` `.space()`, `p<w>` `pad`, `t<w>|<delim>` `truncate`, `w` `width()` query. -/
+inductive SeqOp where
+  | op (o : LineOp)
+  | ops (os : List LineOp)
+  | query
+
+def seqOp? (t : String) : Option SeqOp :=
+  match t.toList with
+  | ['w'] => some .query
+  | ['s'] => some (.op .space)
+  | 'n' :: r => (str? (String.ofList r)).map fun s => .op (.push s)
+  | 'i' :: r => (str? (String.ofList r)).map fun s => .op (.push s)
+  | 'u' :: r => (str? (String.ofList r)).map fun s => .op (.push s)
+  | 'e' :: r => ((splitOn (String.ofList r) '/').mapM str?).map fun ss => .ops (ss.map .push)
+  | 'p' :: r => (nat? (String.ofList r)).map fun w => .op (.pad w)
+  | 't' :: r =>
+    match splitOn (String.ofList r) '|' with
+    | [w, d] => do let w ← nat? w; let d ← str? d; some (.op (.truncate w d))
+    | _ => none
+  | _ => none
+
+def snapshot (l : Line) : String := s!"{showLine l}@{lwidth l}"
+
+/-- Runs the history; prints `w=<n>` for each query, a snapshot after each truncation and at the end. -/
+def runSeq : Line → List SeqOp → List String → List String
+  | l, [], acc => (snapshot l :: acc).reverse
+  | l, .query :: rest, acc => runSeq l rest (s!"w={lwidth l}" :: acc)
+  | l, .ops os :: rest, acc =>
+    match lineRun l os with
+    | some (.ok l') => runSeq l' rest acc
+    | _ => ("bad-op" :: acc).reverse
+  | l, .op o :: rest, acc =>
+    match lineApply l o with
+    | none => ("fuel" :: acc).reverse
+    | some (.panic _) => ("panic" :: acc).reverse
+    | some .cutInsideGrapheme => ("inside" :: acc).reverse
+    | some (.ok l') =>
+      match o with
+      | .truncate _ _ => runSeq l' rest (snapshot l' :: acc)
+      | _ => runSeq l' rest acc
+
+def showStr : Res Str → String
+  | .ok out => "ok:" ++ toHex (bytesOf out)
+  | .panic _ => "panic"
+  | .cutInsideGrapheme => "inside"
+
 def run (args : List String) : String :=
   match args with
   | ["str", s, w, d] =>
@@ -54,6 +104,19 @@ def run (args : List String) : String :=
       | some (.panic _) => "panic"
       | some .cutInsideGrapheme => "inside"
     | _, _, _ => "bad-op"
+  | ["seq", ops] =>
+    match (splitOn ops ';').mapM seqOp? with
+    | some ops => joinWith ";" (runSeq [] ops [])
+    | none => "bad-op"
+  | [op, s, w1, d1, w2, d2] =>
+    if op == "str2" || op == "lab2" then
+      match str? s, nat? w1, str? d1, nat? w2, str? d2 with
+      | some s, some w1, some d1, some w2, some d2 =>
+        match truncate s w1 d1 with
+        | .ok o1 => showStr (.ok o1) ++ ";" ++ showStr (truncate o1 w2 d2)
+        | r => showStr r
+      | _, _, _, _, _ => "bad-op"
+    else "bad-op"
   | _ => "bad-op"
 
 end HeartwoodModel.Driver.C26
